@@ -179,6 +179,37 @@ pub fn run(ctx: &mut Ctx) {
             }
         }
     }
+    // ---- arbitrary generated and mutated messages (malformed attributes, odd-sized sealing
+    //      attributes, wrong CRCs, ...): whatever is wrong *inside*, a buffer with a STUN header is not
+    //      "non-STUN" for the parser while the header decoder accepts it ----
+    {
+        let ng = ctx.n(160_000, 1_600_000);
+        let mut r3 = ctx.rng("hdr-vs-parser", 0);
+        let mut prev: Vec<u8> = vec![];
+        for i in 0..ng {
+            let (b, _g) = gen_message(&mut r3, 5);
+            let m = if i % 3 == 0 { b.clone() } else { mutate(&mut r3, &b, if prev.is_empty() { None } else { Some(&prev) }) };
+            if m.len() >= 20 && m.len() <= 4_000 {
+                header_vs_parser(ctx, &m, m.len());
+                // and with the FINGERPRINT (if any) given an impossible length
+                if i % 16 == 0 {
+                    let rp = ref_parse(&b);
+                    if let Some(fp) = rp.attrs.iter().find(|a| a.ty == FP) {
+                        for l in [0u8, 1, 3, 5, 8] {
+                            let mut x = b[..fp.off].to_vec();
+                            x.extend_from_slice(&[0x80, 0x28, 0, l]);
+                            x.extend(std::iter::repeat(0x77).take((l as usize + 3) / 4 * 4));
+                            let bl = x.len() - 20;
+                            set_len(&mut x, bl);
+                            header_vs_parser(ctx, &x, x.len());
+                        }
+                    }
+                }
+            }
+            prev = b;
+            ctx.eval();
+        }
+    }
     ctx.require("prefix-truncated-ok", 50_000);
     ctx.require("messages", 500);
     ctx.require("header-sweep", 1_000);
